@@ -19,14 +19,20 @@ CLAIMS = {
     technique='Lean 4 proof: invariant relation (Step) by weakest-precondition tactic over the whole model + differential correspondence',
     ref='7 C04'),
  'C01': dict(
-    text='Proved for the model: applying any API option values never raises; an ill-formed replacement regex is reported and ignored; a template group that did '
-         'not participate is blank and one the pattern lacks is reported; the fragmenting loop terminates within |text|+1 steps for every replacement pattern '
-         '(empty-matching ones included); the inline layer can exhaust fuel only through a nested span render (the known finding F5). Absence of the other '
-         'exception kinds at every block-layer call site is not proved; it is checked by requiring implementation and model to raise the same kind of exception '
-         'or none on generated, malformed, corpus-mutated and stress inputs (thousands of elements, depth-50 nesting) and histories with degenerate definitions.',
-    note=COMMON_NOTE + 'Partial: the listed theorems are proofs; full totality is exploration + correspondence. Python recursion limit and memory are runtime limits '
-         'reached only by the stress stream. F5 is an open known finding (known_findings.json).',
-    technique='Lean 4 proof (exception-footprint judgement Safe, fuel adequacy by induction, regex search bounds) + differential correspondence with exception kinds',
+    text='Proved for the model, for every source, option set, fuel and compile oracle, from a fresh process and from every session that any history of render '
+         'calls can reach (render_from_any_reachable_session): a render call returns, or ends in an outcome that is not a Python exception (fuel exhausted, '
+         'a run-time pattern outside the modelled fragment), or raises at one of the residual sites enumerated in the Lean definition `residual`. Every other '
+         'raise site of the model is unreachable: no match group read as a string is None or missing (all 50 call sites: delimiter, class-name, marker, '
+         'term, definition and template groups, for every block table a session can hold), no params[0] / opt[0] / match[1][0] / match[0][0] of a line, list '
+         'or non-paragraph block rule indexes an empty string, the reader is never read at end of input, the quote captured by the quote pattern is a '
+         'non-empty quote of the table, the close tag of a block definition is never None. Also: options never raise; an ill-formed replacement regex is '
+         'reported; the fragmenting loop terminates for every pattern. Residual (decided by the correspondence check, which requires both sides to raise the '
+         'same kind of exception or none): the placeholder queue, int() on $n digits, three `m is not None` assertions and match[0][0] of a paragraph '
+         '(need completeness of the matcher), the list id stack, the filter groups of a re-compiled default replacement pattern.',
+    note=COMMON_NOTE + 'Partial: the footprint theorem is a proof for the model with the residual sites named; totality on those sites, the Python recursion limit '
+         'and memory are exploration (stress stream, correspondence). F5 is an open known finding (known_findings.json).',
+    technique='Lean 4 proof (total-outcome triples wpE pushed through the whole model by a program-shape tactic; session invariant; static regex analyses: group '
+              'participation, group non-emptiness, literal alternation) + differential correspondence with exception kinds',
     ref='7 C01'),
  'C09': dict(
     text='Proved for the model: the generated code / indented block definitions process special characters only and the generated code quotes are non-span; with such '
@@ -157,7 +163,9 @@ CLAIMS = {
          'substituted for $n in any template contains no ", < or > whatever the source and macro table (it cannot end its attribute value or open a tag); '
          'the HTML policy emits nothing / the replacement / the escaped text; the groups that reach attributes unescaped (CSS, class names, ids, delimiter '
          'class names) cannot contain " resp. any of " < > & - facts of the regenerated regular expressions lifted to all inputs by a group-alphabet '
-         'analysis proved sound against the matcher semantics; definitions stay the defaults in safe modes (C04). The composition into "the whole output is in '
+         'analysis proved sound against the matcher semantics; definitions stay the defaults in safe modes (C04); in a non-zero safe mode a block whose '
+         'definition escapes special characters is rendered with them escaped whatever block options are pending, a -specials left by an earlier trusted '
+         'render included (F29), and -specials is refused there. The composition into "the whole output is in '
          'the safe language" is not proved: it is decided by a strict output tokenizer on generated hostile sessions in the 12 modes, on implementation and model.',
     note=COMMON_NOTE + 'Partial: component theorems + regenerated facts are proofs; the end-to-end statement is exploration (strict tokenizer) and the manifest says so.',
     technique='Lean 4 proof of the escaping / group-alphabet components (static analysis on regenerated regexes, sound w.r.t. matcher semantics) + differential correspondence + strict output tokenizer',
